@@ -65,10 +65,20 @@ def content_type_rules(ctx, prog, ser, pk, spec, ox, rid):
         ctx.error(key, "loop over self._parts not recognised")
         loops = []
     # the two tables by role: the function returns (defaults, overrides)
+    from sa import records as R_
+
     rets_ = [n.value for n in walk_own(dx) if isinstance(n, ast.Return) and n.value is not None]
     DN = ON = None
-    if len(rets_) == 1 and isinstance(rets_[0], ast.Tuple) and len(rets_[0].elts) == 2 and all(isinstance(e, ast.Name) for e in rets_[0].elts):
-        DN, ON = rets_[0].elts[0].id, rets_[0].elts[1].id
+    dval_ = P_.value_aliases(dx)
+    pair_ = None
+    if len(rets_) == 1:
+        r0 = rets_[0]
+        for _ in range(4):
+            if isinstance(r0, ast.Name) and r0.id in dval_:
+                r0 = dval_[r0.id]
+        pair_ = R_.components(prog, dao.module, r0)   # a tuple display, or a two-field record constructed from the two tables
+    if pair_ is not None and len(pair_) == 2 and all(isinstance(e, ast.Name) for e in pair_):
+        DN, ON = pair_[0].id, pair_[1].id
     else:
         ctx.error(key, "the returned (defaults, overrides) pair is not recognised")
         loops = []
@@ -175,7 +185,17 @@ def content_type_rules(ctx, prog, ser, pk, spec, ox, rid):
     # serialisation of the two dicts: every item is emitted
     xmlf = cti.methods.get("_xml")
     emitted = set()
-    # which local holds which table: `d, o = self._defaults_and_overrides` (or indexed reads of it)
+    # which local holds which table: `d, o = self._defaults_and_overrides` (or indexed reads of it / fields of the record it is);
+    # the element may be built by a factory of the element class (`CT_Types.from_mappings(*pair)`), read in place
+    import copy as _copy
+
+    if xmlf is not None:
+        xmlf = _copy.copy(xmlf)
+        xmlf.node = _expand(prog, xmlf, depth=2)
+    rec_ = R_.producer_record(prog, dao)
+    if rec_ is not None and xmlf is not None:
+        xmlf.node = R_.TupleView(prog, rec_[0], rec_[1], lambda b: P_.full(b, P_.value_aliases(xmlf.node)) == "self._defaults_and_overrides").visit(xmlf.node)
+        ast.fix_missing_locations(xmlf.node)
     xval = P_.value_aliases(xmlf.node) if xmlf else {}
     xrole = {}
     for nm_, v_ in xval.items():
